@@ -59,7 +59,11 @@ def run (args : List String) (cmd : String) : String :=
           let mi := Mapping.goFloor x
           -- the same index, or the neighbour when the value sits within δ of the shared bin edge
           let frac := (x - x.round).abs
-          let tol := (3.7e-12 + 4 * tau k g) * (if x.abs < 1 then 1 else x.abs) + 1e-9
+          -- the sum `log·multiplier + offset` cancels when the offset is large: the error scales
+          -- with the magnitude of the summands, not of the result
+          let t1 := (MOps.mul (Mapping.approxLog p v) (Mapping.multiplier p) : Float).abs
+          let mag := [1.0, x.abs, t1, p.indexOffset.abs].foldl (fun a b => if a < b then b else a) 0.0
+          let tol := (3.7e-12 + 4 * tau k g) * mag + 1e-9
           if mi == goIdx then "ok"
           else if (mi - goIdx == 1 || goIdx - mi == 1) && frac ≤ tol then "ok"
           else s!"MODEL-DIFF idx model={mi} go={goIdx} x={x}"
